@@ -169,6 +169,7 @@ def realise(spec, it, st, memo):
             cnode = it.repo.cls(mod, spec.cls[1])
         o = it.new_obj(st, mod, cnode, label="seed", havoc=spec.havoc)
         memo[id(spec)] = o
+        memo.setdefault("#keep", []).append(spec)   # keep id(spec) unique while memo lives
         for k, v in spec.attrs.items():
             st.heap[o.ident][k] = realise(v, it, st, memo)
         return o
